@@ -76,6 +76,9 @@ def iterate(make_iterable, take):
     return {'items': items, 'exc': 'none'}
 
 
+IDXFIRST = [False]   # index-first mode: ds[i] for all i, LAST to first, before the first iteration
+
+
 def observe_ds(ds, take=None):
     idx = flag(lambda: ds.indexable)
     ord_ = flag(lambda: ds.ordered)
@@ -86,6 +89,18 @@ def observe_ds(ds, take=None):
         raise
     except BaseException as e:
         len_ = {'ok': False, 'n': 0, 'exc': _exc(e)}
+    def index_all():
+        rng = range(-(len_['n'] + 2), len_['n'] + 2) if len_['ok'] else range(-2, 3)
+        gi, same = [], True
+        for i in (reversed(rng) if IDXFIRST[0] else rng):
+            r, e = outcome_v(lambda: ds[i])
+            gi.append({'i': i, 'r': r, 'ie': isinstance(e, IndexError)})
+            r2, _ = outcome_v(lambda: ds[np.int64(i)])
+            if r2 != r:
+                same = False
+        return sorted(gi, key=lambda g: g['i']), same
+    if IDXFIRST[0]:          # the order of observations must not matter
+        gi, ginsame = index_all()
     it1 = iterate(lambda: ds, take)
     try:
         ks = ds.keys()
@@ -95,15 +110,8 @@ def observe_ds(ds, take=None):
         raise
     except BaseException as e:
         keys = {'ok': False, 'ks': [], 'exc': _exc(e)}
-    rng = range(-(len_['n'] + 2), len_['n'] + 2) if len_['ok'] else range(-2, 3)
-    gi = []
-    ginsame = True
-    for i in rng:
-        r, e = outcome_v(lambda: ds[i])
-        gi.append({'i': i, 'r': r, 'ie': isinstance(e, IndexError)})
-        r2, _ = outcome_v(lambda: ds[np.int64(i)])
-        if r2 != r:
-            ginsame = False
+    if not IDXFIRST[0]:
+        gi, ginsame = index_all()
     gs = []
     for k in PROBE:
         r, e = outcome_v(lambda: ds[k])
@@ -126,7 +134,8 @@ def observe(api, timeout=20.0, touch=False):
     within `timeout` seconds - and, tried again, not within three times that
     (a loaded machine is not a hang) - is reported as build = 'HANG'."""
     from . import build as _b
-    _b.TOUCH[0] = bool(touch)
+    _b.TOUCH[0] = touch in (True, 1)
+    IDXFIRST[0] = touch == 2
     for t in (timeout, 3 * timeout):
         try:
             r = _observe_once(api, t)
